@@ -93,6 +93,7 @@ def run_tlc(wd, module, cfg, workers=4, heap="2g", timeout=600, simulate=None, d
     r.cmd = " ".join(cmd[cmd.index("tlc2.TLC"):])
     t0 = time.time()
     tail = []
+    keep = []
     try:
         p = subprocess.Popen(["timeout", str(timeout)] + cmd, cwd=wd, stdout=subprocess.PIPE,
                              stderr=subprocess.STDOUT, text=True, errors="replace")
@@ -107,6 +108,9 @@ def run_tlc(wd, module, cfg, workers=4, heap="2g", timeout=600, simulate=None, d
                         r.vecs.append(v)
                     r.nvecs = getattr(r, "nvecs", 0) + 1
                     continue
+            if line.startswith("Error:") or "is violated" in line or "Deadlock reached" in line or "states generated" in line \
+                    or "depth of the complete" in line or "TRACE-REJECTED-AFTER" in line or "is false" in line:
+                keep.append(line)
             tail.append(line)
             if len(tail) > 4000:
                 del tail[:2000]
@@ -114,7 +118,7 @@ def run_tlc(wd, module, cfg, workers=4, heap="2g", timeout=600, simulate=None, d
     finally:
         shutil.rmtree(meta, ignore_errors=True)
     r.wall = time.time() - t0
-    out = "\n".join(tail)
+    out = "\n".join(keep[:200] + ["---- tail ----"] + tail)
     r.out = out
     if not hasattr(r, "nvecs"):
         r.nvecs = 0
